@@ -381,6 +381,134 @@ theorem exit_error_is_copy_error (evs : List PEv) (e : Option Err) :
     · simp [carried] at c
     · exact c
 
+
+/-! ## Part 3: both directions at the same time — buffers and piecewise-consumed writes -/
+
+/-- the part of the write in flight that the destination has not consumed yet, as it is in memory NOW -/
+def window (bufOf : Dir → Nat) (s : DState) (d : Dir) : List Nat :=
+  ((s.mem (bufOf d)).drop (s.half d).off).take ((s.half d).nr - (s.half d).off)
+
+structure DInv (bufOf : Dir → Nat) (s : DState) : Prop where
+  len : ∀ i, (s.mem i).length = bufferSize
+  le : ∀ d, (s.half d).off ≤ (s.half d).nr ∧ (s.half d).nr ≤ bufferSize
+  win : ∀ d, (s.half d).delivered ++ window bufOf s d = (s.half d).taken
+
+theorem half_setHalf (s : DState) (d d' : Dir) (h : Half) :
+    (s.setHalf d h).half d' = if d' = d then h else s.half d' := by
+  cases d <;> cases d' <;> simp [DState.setHalf, DState.half]
+
+theorem half_withMem (s : DState) (m : Nat → List Nat) (d : Dir) : ({ s with mem := m }).half d = s.half d := by
+  cases d <;> rfl
+
+theorem mem_setHalf (s : DState) (d : Dir) (h : Half) : (s.setHalf d h).mem = s.mem := by
+  cases d <;> rfl
+
+theorem take_split (l : List Nat) (k n : Nat) (h : k ≤ n) :
+    l.take k ++ (l.drop k).take (n - k) = l.take n := by
+  have : n = k + (n - k) := by omega
+  rw [this, List.take_add]; simp
+
+theorem dinv_step (bufOf : Dir → Nat) (hb : bufOf .ab ≠ bufOf .ba) (s : DState) (ev : DEv)
+    (h : DInv bufOf s) : DInv bufOf (dstep bufOf s ev) := by
+  unfold dstep
+  by_cases en : enabled s ev = true
+  · rw [if_pos en]
+    cases ev with
+    | read d chunk =>
+      simp only [enabled, Bool.and_eq_true, Bool.not_eq_true', decide_eq_false_iff_not, decide_eq_true_eq] at en
+      obtain ⟨hidle, hsz⟩ := en
+      have hoff : (s.half d).off = (s.half d).nr := by have := (h.le d).1; omega
+      have hdel : (s.half d).delivered = (s.half d).taken := by
+        have := h.win d; simpa [window, hoff] using this
+      refine ⟨?_, ?_, ?_⟩
+      · intro i
+        simp only [mem_setHalf]
+        by_cases c : i = bufOf d
+        · simp only [c, if_true, List.length_append, List.length_drop, h.len]; omega
+        · simp only [c, if_false, h.len]
+      · intro d'
+        rw [half_setHalf]
+        by_cases c : d' = d
+        · simp only [c, if_true]; exact ⟨Nat.zero_le _, hsz⟩
+        · simp only [c, if_false]; exact h.le d'
+      · intro d'
+        by_cases c : d' = d
+        · subst c
+          simp only [window, half_setHalf, half_withMem, mem_setHalf, if_true, List.drop_zero, Nat.sub_zero,
+            List.take_left', hdel]
+        · have hne : bufOf d' ≠ bufOf d := by
+            cases d <;> cases d' <;> first | exact absurd rfl c | exact hb | exact hb.symm
+          have := h.win d'
+          simpa only [window, half_setHalf, half_withMem, mem_setHalf, c, if_false, hne] using this
+    | drain d k =>
+      simp only [enabled, Bool.and_eq_true, decide_eq_true_eq] at en
+      obtain ⟨hk, hfit⟩ := en
+      refine ⟨?_, ?_, ?_⟩
+      · intro i; simp only [mem_setHalf]; exact h.len i
+      · intro d'
+        rw [half_setHalf]
+        by_cases c : d' = d
+        · simp only [c, if_true]; exact ⟨hfit, (h.le d).2⟩
+        · simp only [c, if_false]; exact h.le d'
+      · intro d'
+        by_cases c : d' = d
+        · subst c
+          have hw := h.win d'
+          simp only [window] at hw
+          simp only [window, half_setHalf, mem_setHalf, if_true, List.append_assoc]
+          rw [← hw, ← take_split ((s.mem (bufOf d')).drop (s.half d').off) k ((s.half d').nr - (s.half d').off) (by omega)]
+          simp only [List.drop_drop]
+          congr 3
+          omega
+        · have := h.win d'
+          simpa only [window, half_setHalf, mem_setHalf, c, if_false] using this
+  · rw [if_neg en]; exact h
+
+theorem dinv_foldl (bufOf : Dir → Nat) (hb : bufOf .ab ≠ bufOf .ba) (evs : List DEv) :
+    ∀ s, DInv bufOf s → DInv bufOf (evs.foldl (dstep bufOf) s) := by
+  induction evs with
+  | nil => intro s h; exact h
+  | cons e es ih => intro s h; exact ih _ (dinv_step bufOf hb s e h)
+
+/-- **duplex_inv_run.** With one buffer per direction, after EVERY interleaving of reads and piecewise drains of the
+two directions, whatever the pooled buffers contained: for each direction, the bytes consumed by the destination
+followed by the not yet consumed part of the write in flight (as it is in memory now) are exactly the bytes read. -/
+theorem duplex_inv_run (bufOf : Dir → Nat) (hb : bufOf .ab ≠ bufOf .ba) (m0 : Nat → List Nat)
+    (hm : ∀ i, (m0 i).length = bufferSize) (evs : List DEv) : DInv bufOf (drun bufOf m0 evs) :=
+  dinv_foldl bufOf hb evs _ ⟨hm, by intro d; cases d <;> simp [DState.half], by intro d; cases d <;> simp [DState.half, window]⟩
+
+/-- **duplex_in_order.** Traffic in both directions at once: what a destination has consumed is always a prefix of
+what was read from the opposite side — the same bytes, in order, nothing from the other direction mixed in. -/
+theorem duplex_in_order (bufOf : Dir → Nat) (hb : bufOf .ab ≠ bufOf .ba) (m0 : Nat → List Nat)
+    (hm : ∀ i, (m0 i).length = bufferSize) (evs : List DEv) (d : Dir) :
+    ((drun bufOf m0 evs).half d).delivered <+: ((drun bufOf m0 evs).half d).taken :=
+  ⟨_, (duplex_inv_run bufOf hb m0 hm evs).win d⟩
+
+/-- **duplex_counts.** The destination is never short-changed: consumed bytes + bytes still in flight = bytes read. -/
+theorem duplex_counts (bufOf : Dir → Nat) (hb : bufOf .ab ≠ bufOf .ba) (m0 : Nat → List Nat)
+    (hm : ∀ i, (m0 i).length = bufferSize) (evs : List DEv) (d : Dir) :
+    ((drun bufOf m0 evs).half d).delivered.length +
+      (((drun bufOf m0 evs).half d).nr - ((drun bufOf m0 evs).half d).off) =
+    ((drun bufOf m0 evs).half d).taken.length := by
+  have h := duplex_inv_run bufOf hb m0 hm evs
+  have hw := congrArg List.length (h.win d)
+  have hl := h.len (bufOf d)
+  have hle := h.le d
+  simp only [List.length_append, window, List.length_take, List.length_drop, hl] at hw
+  omega
+
+/-- **duplex_complete.** Whenever a direction has no write in flight, everything read from its source so far has
+arrived at its destination (in particular when the source ends: a copier only reads when its write has returned). -/
+theorem duplex_complete (bufOf : Dir → Nat) (hb : bufOf .ab ≠ bufOf .ba) (m0 : Nat → List Nat)
+    (hm : ∀ i, (m0 i).length = bufferSize) (evs : List DEv) (d : Dir)
+    (hidle : ((drun bufOf m0 evs).half d).off = ((drun bufOf m0 evs).half d).nr) :
+    ((drun bufOf m0 evs).half d).delivered = ((drun bufOf m0 evs).half d).taken := by
+  have h := (duplex_inv_run bufOf hb m0 hm evs).win d
+  simpa [window, hidle] using h
+
+/-- the code's buffer assignment satisfies the hypothesis -/
+theorem codeBufOf_distinct : codeBufOf .ab ≠ codeBufOf .ba := by decide
+
 /-! ### non-vacuity -/
 
 /-- reader: "ab", "" (0,nil), "c"+EOF; writer accepts everything -/
@@ -398,5 +526,21 @@ example : (prun demo).chanClosed = true ∧ (prun demo).chan = [.other 1] ∧ (p
     (prun demo).closesY = 2 := by decide
 /-- the closer cannot fire early -/
 example : (prun [.finishA none, .stepA, .stepA, .stepA, .stepA, .closer]).chanClosed = false := by decide
+
+/-- both directions busy at once: A→B's chunk is half consumed when B→A's chunk arrives; with the code's own
+buffer per direction everything arrives intact, whatever the pooled buffers contained -/
+def overlap : List DEv :=
+  [.read .ab [65,65,65,65], .drain .ab 2, .read .ba [66,66,66,66], .drain .ab 2, .drain .ba 3]
+example (m0 : Nat → List Nat) : ((drun codeBufOf m0 overlap).half .ab).delivered = [65,65,65,65] ∧
+    ((drun codeBufOf m0 overlap).half .ba).delivered = [66,66,66] ∧
+    ((drun codeBufOf m0 overlap).half .ba).taken = [66,66,66,66] ∧
+    ((drun codeBufOf m0 overlap).half .ab).off = ((drun codeBufOf m0 overlap).half .ab).nr := by
+  simp [drun, overlap, dstep, enabled, DState.half, DState.setHalf, codeBufOf, bufferSize]
+/-- buffers as the pool hands them out exist -/
+example : ∀ i, ((fun _ => List.replicate bufferSize 0 : Nat → List Nat) i).length = bufferSize := by intro i; simp
+/-- sensitivity: the hypothesis "one buffer per direction" is needed — through a shared buffer the same interleaving
+delivers bytes of the opposite direction -/
+example (m0 : Nat → List Nat) : ((drun (fun _ => 0) m0 overlap).half .ab).delivered = [65,65,66,66] := by
+  simp [drun, overlap, dstep, enabled, DState.half, DState.setHalf, bufferSize]
 
 end Specter.C40
